@@ -316,39 +316,53 @@ structure St where
   scriptBad : Bool                                       -- ver_err_cnt > 0
   deriving Repr
 
-/-- one pass of the `for j := range tx.TxIn` loop; `txinsum` is threaded separately -/
-def procInput (cfg : Cfg) (db : DB) (b : Block) (inp : TxIn) (s : St) (txinsum : Nat) : Except Err (St × Nat) := do
-  let h := inp.prev.hash
-  let v := inp.prev.vout
-  let spent := aGet s.deled h
+/-- `spent_map, was_spent := changes.DeledTxs[inp.Hash]` and the two tests that follow -/
+def earlyCheck (spent : Option (List Bool)) (v : Nat) : Option Err :=
   match spent with
-  | some m =>
-    if v ≥ m.length then throw .voutTooBig
-    if m.getD v false then throw .doubleSpend
-  | none => pure ()
-  let (s1, value, pk) ←
+  | some m => if v ≥ m.length then some .voutTooBig else if m.getD v false then some .doubleSpend else none
+  | none => none
+
+/-- `tout == nil`: the coin must have been created earlier in this block (`blUnsp`) -/
+def fromBlock (s : St) (h : Bytes) (v : Nat) : Except Err (St × Nat × Bytes) :=
+  match aGet s.blUnsp h with
+  | none => .error .unknownInput
+  | some (cb, t) =>
+    if v ≥ t.length then .error .voutTooBig2
+    else match t.getD v none with
+      | none => .error .alreadySpent
+      | some o =>
+        if cb then .error .ownCoinbase
+        else .ok ({ s with blUnsp := aSet s.blUnsp h (cb, t.set v none) }, o.value, o.script)
+
+/-- `tout != nil`: a confirmed coin; maturity, then the mark in DeledTxs -/
+def fromDb (b : Block) (s : St) (h : Bytes) (v : Nat) (tout : Found) : Except Err (St × Nat × Bytes) :=
+  if tout.coinbase ∧ sub32 b.height tout.height < COINBASE_MATURITY then .error .immature
+  else
+    let m := match aGet s.deled h with
+      | some m => m
+      | none => List.replicate tout.voutCount false
+    .ok ({ s with deled := aSet s.deled h (m.set v true) }, tout.value, tout.script)
+
+/-- the first half of one pass of the `for j := range tx.TxIn` loop: double-spend map, UnspentGet, else blUnsp;
+    returns the updated locals, the value and the pk script of the coin being spent -/
+def resolve (cfg : Cfg) (db : DB) (b : Block) (inp : TxIn) (s : St) : Except Err (St × Nat × Bytes) :=
+  match earlyCheck (aGet s.deled inp.prev.hash) inp.prev.vout with
+  | some e => .error e
+  | none =>
     match unspentGet cfg db inp.prev with
-    | none =>
-      match aGet s.blUnsp h with
-      | none => throw .unknownInput
-      | some (cb, t) =>
-        if v ≥ t.length then throw .voutTooBig2
-        match t.getD v none with
-        | none => throw .alreadySpent
-        | some o =>
-          if cb then throw .ownCoinbase
-          pure ({ s with blUnsp := aSet s.blUnsp h (cb, t.set v none) }, o.value, o.script)
-    | some tout =>
-      if tout.coinbase ∧ sub32 b.height tout.height < COINBASE_MATURITY then throw .immature
-      let m := match spent with
-        | some m => m
-        | none => List.replicate tout.voutCount false
-      pure ({ s with deled := aSet s.deled h (m.set v true) }, tout.value, tout.script)
-  let so1 := if b.p2sh ∧ isP2SH pk then u32 (s1.sigops + u32 (WITNESS_SCALE_FACTOR * getP2SHSigOpCount inp.scriptSig)) else s1.sigops
-  let so2 := if b.witness then u32 (so1 + u32 (countWitnessSigOps inp pk)) else so1
-  let txinsum' := u64 (txinsum + value)
-  if cfg.moneyRange ∧ (value > MAX_MONEY ∨ txinsum' > MAX_MONEY) then throw .inputRange
-  pure ({ s1 with sigops := so2 }, txinsum')
+    | none => fromBlock s inp.prev.hash inp.prev.vout
+    | some tout => fromDb b s inp.prev.hash inp.prev.vout tout
+
+/-- one pass of the `for j := range tx.TxIn` loop; `txinsum` is threaded separately -/
+def procInput (cfg : Cfg) (db : DB) (b : Block) (inp : TxIn) (s : St) (txinsum : Nat) : Except Err (St × Nat) :=
+  match resolve cfg db b inp s with
+  | .error e => .error e
+  | .ok (s1, value, pk) =>
+    let so1 := if b.p2sh ∧ isP2SH pk then u32 (s1.sigops + u32 (WITNESS_SCALE_FACTOR * getP2SHSigOpCount inp.scriptSig)) else s1.sigops
+    let so2 := if b.witness then u32 (so1 + u32 (countWitnessSigOps inp pk)) else so1
+    let txinsum' := u64 (txinsum + value)
+    if cfg.moneyRange ∧ (value > MAX_MONEY ∨ txinsum' > MAX_MONEY) then .error .inputRange
+    else .ok ({ s1 with sigops := so2 }, txinsum')
 
 def procInputs (cfg : Cfg) (db : DB) (b : Block) : List TxIn → St → Nat → Except Err (St × Nat)
   | [], s, a => .ok (s, a)
@@ -359,31 +373,38 @@ def procInputs (cfg : Cfg) (db : DB) (b : Block) : List TxIn → St → Nat → 
 
 def sumOuts (outs : List TxOut) : Nat := outs.foldl (fun a o => u64 (a + o.value)) 0
 
-/-- one pass of the `for i, tx := range bl.Txs` loop -/
-def procTx (cfg : Cfg) (db : DB) (b : Block) (isCb : Bool) (tx : Tx) (s : St) : Except Err St := do
+/-- the input half of one pass of the `for i, tx := range bl.Txs` loop: legacy sigops, then either the coinbase
+    script-length test or the input loop; returns the locals and `txinsum` -/
+def txInputs (cfg : Cfg) (db : DB) (b : Block) (isCb : Bool) (tx : Tx) (s : St) : Except Err (St × Nat) :=
   let s0 := { s with sigops := u32 (s.sigops + u32 (WITNESS_SCALE_FACTOR * legacySigOps tx)) }
-  let (s1, txinsum) ←
-    if isCb then
-      let l := (tx.ins.headD default).scriptSig.length
-      if l < 2 ∨ l > 100 then throw .cbScriptLen
-      pure (s0, 0)
-    else do
-      let (s', a) ← procInputs cfg db b tx.ins s0 0
-      pure ({ s' with scriptBad := s'.scriptBad || tx.ins.any (fun i => !i.scriptOk) }, a)
-  let txoutsum := sumOuts tx.outs
-  let s2 ←
-    if cfg.moneyRange then
-      if isCb then pure { s1 with sumOut := txoutsum }
-      else
-        if txoutsum > txinsum then throw .moreSpent
-        let fees := u64 (s1.fees + sub64 txinsum txoutsum)
-        if fees > MAX_MONEY then throw .feeRange
-        pure { s1 with fees := fees }
+  if isCb then
+    let l := (tx.ins.headD default).scriptSig.length
+    if l < 2 ∨ l > 100 then .error .cbScriptLen else .ok (s0, 0)
+  else
+    match procInputs cfg db b tx.ins s0 0 with
+    | .error e => .error e
+    | .ok (s', a) => .ok ({ s' with scriptBad := s'.scriptBad || tx.ins.any (fun i => !i.scriptOk) }, a)
+
+/-- the amount half: fee test and block totals (two shapes: before / after the MoneyRange fix) -/
+def settle (cfg : Cfg) (isCb : Bool) (s1 : St) (txinsum txoutsum : Nat) : Except Err St :=
+  if cfg.moneyRange then
+    if isCb then .ok { s1 with sumOut := txoutsum }
+    else if txoutsum > txinsum then .error .moreSpent
     else
-      let s' := { s1 with sumIn := u64 (s1.sumIn + txinsum), sumOut := u64 (s1.sumOut + txoutsum) }
-      if !isCb ∧ txoutsum > txinsum then throw .moreSpent
-      pure s'
-  pure { s2 with blUnsp := aSet s2.blUnsp tx.txid (isCb, tx.outs.map some) }
+      let fees := u64 (s1.fees + sub64 txinsum txoutsum)
+      if fees > MAX_MONEY then .error .feeRange else .ok { s1 with fees := fees }
+  else
+    let s' := { s1 with sumIn := u64 (s1.sumIn + txinsum), sumOut := u64 (s1.sumOut + txoutsum) }
+    if !isCb ∧ txoutsum > txinsum then .error .moreSpent else .ok s'
+
+/-- one pass of the `for i, tx := range bl.Txs` loop -/
+def procTx (cfg : Cfg) (db : DB) (b : Block) (isCb : Bool) (tx : Tx) (s : St) : Except Err St :=
+  match txInputs cfg db b isCb tx s with
+  | .error e => .error e
+  | .ok (s1, txinsum) =>
+    match settle cfg isCb s1 txinsum (sumOuts tx.outs) with
+    | .error e => .error e
+    | .ok s2 => .ok { s2 with blUnsp := aSet s2.blUnsp tx.txid (isCb, tx.outs.map some) }
 
 def procTxs (cfg : Cfg) (db : DB) (b : Block) : Bool → List Tx → St → Except Err St
   | _, [], s => .ok s
@@ -400,14 +421,18 @@ def addList (b : Block) (s : St) : List Rec :=
   s.blUnsp.filterMap fun (k, (cb, outs)) =>
     if outs.any Option.isSome then some { txid := k, height := b.height, coinbase := cb, outs := outs } else none
 
+/-- the three tests after the loop: script failures, `sumblockin < sumblockout`, sigop cost -/
+def finalChecks (cfg : Cfg) (s : St) : Except Err St :=
+  if s.scriptBad then .error .scripts
+  else if (if cfg.moneyRange then u64 (s.sumIn + s.fees) else s.sumIn) < s.sumOut then .error .cbTooMuch
+  else if s.sigops > MAX_BLOCK_SIGOPS_COST then .error .sigops
+  else .ok s
+
 /-- `commitTxs`: final state of the locals (DeledTxs, blUnsp, sigopscost), or the error -/
-def commitTxs (cfg : Cfg) (db : DB) (b : Block) : Except Err St := do
-  let s ← procTxs cfg db b true b.txs (St.init b)
-  if s.scriptBad then throw .scripts
-  let sumIn := if cfg.moneyRange then u64 (s.sumIn + s.fees) else s.sumIn
-  if sumIn < s.sumOut then throw .cbTooMuch
-  if s.sigops > MAX_BLOCK_SIGOPS_COST then throw .sigops
-  pure s
+def commitTxs (cfg : Cfg) (db : DB) (b : Block) : Except Err St :=
+  match procTxs cfg db b true b.txs (St.init b) with
+  | .error e => .error e
+  | .ok s => finalChecks cfg s
 
 /-- `UnspentDB.commit`: the deletions, then the additions (the goroutines touch disjoint keys unless two
     txids of the block / the set share their first 8 bytes) -/
@@ -430,12 +455,13 @@ structure Chain where
   index : List Bytes
   deriving Repr
 
-/-- `AcceptHeader` links the node into the index; `CommitBlock` either applies the block and advances the
-    head, or unlinks the node again (`delChild` + `delete(ch.BlockIndex, …)`) and leaves everything else alone. -/
+/-- `AcceptHeader` links the node into the index (`ch.BlockIndex[hash] = cur`); `CommitBlock` either applies the
+    block and advances the head, or unlinks the node again (`delChild` + `delete(ch.BlockIndex, hash)`) and leaves
+    everything else alone.  The index is a Go map: linking a hash twice keeps one entry, deleting removes it. -/
 def acceptBlock (cfg : Cfg) (c : Chain) (b : Block) : Chain × Except Err Nat :=
-  let linked := b.hash :: c.index
+  let linked := if b.hash ∈ c.index then c.index else b.hash :: c.index
   match connect cfg c.db b with
   | .ok (db', so) => ({ db := db', tip := b.hash, index := linked }, .ok so)
-  | .error e => ({ c with index := linked.erase b.hash }, .error e)
+  | .error e => ({ c with index := linked.filter (· ≠ b.hash) }, .error e)
 
 end GocoinV.Connect
